@@ -52,18 +52,30 @@ def run(ctx, n=None):
             "parameters": {"p": 1, "q": "a"}, "services": {"s": {"constructor": "fx.NewA", "arguments": [1, 2], "getter": "GetS", "must_getter": False, "type": "*fx.Obj",
                                                                "calls": [["Call1", [1]]], "fields": {"F1": 1}, "tags": ["t1"], "scope": "shared"}},
             "decorators": [{"tag": "t1", "decorator": "fx.Dec1", "arguments": []}]}
+    # the placeholder flag is a scalar like the others: an explicit value in the later file wins, in both directions
+    base["services"]["t_on"] = {"todo": True}
+    base["services"]["t_off"] = {"todo": False, "constructor": "fx.NewA"}
     over = {"meta": {"pkg": "gen2", "container_type": "T2", "container_constructor": "New2", "default_must_getter": True, "imports": {"al": "z/w", "nw": "n/w"}, "functions": {"f": "fx.FnInt", "g": "fx.Fn1"}},
             "parameters": {"p": 2, "r": None}, "services": {"s": {"constructor": "fx.NewB", "arguments": [9], "getter": "GetS2", "must_getter": True, "type": "*fx.Obj",
                                                                "calls": [["Call2", [2]]], "fields": {"F1": 2, "F2": 3}, "tags": ["t2"], "scope": "contextual"},
                                                          "s2": {"value": "fx.Global"}},
             "decorators": [{"tag": "t2", "decorator": "fx.Dec2", "arguments": [1]}]}
+    over["services"]["t_on"] = {"todo": False, "constructor": "fx.NewC"}
+    over["services"]["t_off"] = {"todo": True}
     want = {"meta": {"pkg": "gen2", "container_type": "T2", "container_constructor": "New2", "default_must_getter": True, "imports": {"fx": gen.FX, "al": "z/w", "nw": "n/w"}, "functions": {"f": "fx.FnInt", "g": "fx.Fn1"}},
             "parameters": {"p": 2, "q": "a", "r": None}, "services": {"s": {"constructor": "fx.NewB", "arguments": [9], "getter": "GetS2", "must_getter": True, "type": "*fx.Obj",
                                                                          "calls": [["Call1", [1]], ["Call2", [2]]], "fields": {"F1": 2, "F2": 3}, "tags": ["t1", "t2"], "scope": "contextual"},
                                                                    "s2": {"value": "fx.Global"}},
             "decorators": [{"tag": "t1", "decorator": "fx.Dec1", "arguments": []}, {"tag": "t2", "decorator": "fx.Dec2", "arguments": [1]}]}
+    want["services"]["t_on"] = {"todo": False, "constructor": "fx.NewC"}
+    want["services"]["t_off"] = {"todo": True, "constructor": "fx.NewA"}
     got = ctx.impl.ask({"op": "mergetree", "tree": [gen.yaml_doc(base), gen.yaml_doc(over)]})
     exp = ctx.impl.ask({"op": "mergetree", "tree": [gen.yaml_doc(want)]})
+    if ctx.have_model and "ok" in got:
+        decs = [ctx.impl.ask({"op": "decode", "yaml": gen.yaml_doc(y_)}) for y_ in (base, over)]
+        m_ = ctx.model.ask({"op": "merge", "inputs": [d_["ok"] for d_ in decs]})
+        if norm_input(m_.get("ok")) != norm_input(got["ok"]) and len(corr_fail) < 10:
+            corr_fail.append({"op": "merge", "files": [gen.yaml_doc(base), gen.yaml_doc(over)], "impl": got["ok"], "model": m_.get("ok")})
     dist["override_pairs"] += 1
     if norm_input(got.get("ok")) != norm_input(exp.get("ok")):
         violations.append({"sig": "merge-rules", "what": "merging two files that override every attribute does not follow the documented per-attribute rules", "files": [gen.yaml_doc(base), gen.yaml_doc(over)], "observed": got.get("ok"), "expected": exp.get("ok")})
